@@ -141,9 +141,20 @@ func run(c *core.Ctx) {
 	c.Assume("idle = 3 consecutive input-plugin maintenance ticks with all jobs done and nothing resumed and 3 consecutive pipeline ticks with 0 events in use and an unchanged input counter, all after the harness' last write (from file.d's own log)")
 
 	bin := filepath.Join(core.Root(), "bin", "file.d-verif")
+	if b := os.Getenv("VERIF_FILED_BIN"); b != "" {
+		bin = b // run.sh builds a private binary per invocation
+	}
 	if _, err := os.Stat(bin); err != nil {
 		c.Fatal("file.d binary %s missing (run through run.sh): %v", bin, err)
 		return
+	}
+	// run a private copy: /verif/bin is shared, and another `run.sh C03` (e.g. with a VERIF_OVERLAY
+	// mutant) started while this run is going on would replace the binary under its scenarios
+	if priv, cleanup, err := privateCopy(bin); err == nil {
+		bin = priv
+		defer cleanup()
+	} else {
+		c.Assume("could not make a private copy of the binary (" + err.Error() + "); a concurrent rebuild may disturb this run")
 	}
 	scs := buildScenarios(c)
 	if only := os.Getenv("C03_ONLY"); only != "" { // debugging aid: run a single scenario index
@@ -259,6 +270,24 @@ func lastLines(s string, n int) string {
 		ls = ls[len(ls)-n:]
 	}
 	return strings.Join(ls, " | ")
+}
+
+func privateCopy(bin string) (string, func(), error) {
+	dir, err := os.MkdirTemp(core.ScratchBase(), "verif-c03-bin-")
+	if err != nil {
+		return "", nil, err
+	}
+	b, err := os.ReadFile(bin)
+	if err != nil {
+		os.RemoveAll(dir)
+		return "", nil, err
+	}
+	dst := filepath.Join(dir, "file.d-verif")
+	if err := os.WriteFile(dst, b, 0o755); err != nil {
+		os.RemoveAll(dir)
+		return "", nil, err
+	}
+	return dst, func() { os.RemoveAll(dir) }, nil
 }
 
 func head(x []int, n int) []int {
